@@ -295,6 +295,24 @@ func checkC18(c *Ctx) {
 	r.Rule("R18c", "template variables and declared path parameters coincide; parameter locations are constant; path parameters are unconditionally required", 20)
 	r.Rule("R18d", "one document per service; operation ids are RPC names", 3)
 	r.Rule("R18e", "all renderings derive from one marshalled document; format vocabulary and extension agree", 3)
+	r.Rule("R18g", "the documents of different services share no mutable state: no package-level variable of the OpenAPI generator or its plugin main is written while generating (a schema built by one service's generator registers its side schemas there only; shared with C15/R15c)", 1)
+	for _, rel := range []string{pkgOpenAPI, cmdOpenAPI} {
+		pk := c.P.Pkg(rel)
+		if pk == nil {
+			r.Unres("R18g", rel, "", "package not loaded")
+			continue
+		}
+		vars, written := writtenPkgVars(pk)
+		nW := 0
+		for _, v := range vars {
+			if pos, w := written[v]; w {
+				nW++
+				r.Bad("R18g", fmt.Sprintf("package variable %s.%s is never written after initialisation", rel, v.Name()), c.P.Pos(pos),
+					"a package-level variable of the OpenAPI generator is written while documents are generated: every service gets its own Generator, so whatever one generator caches there (a built schema whose variant or nested schemas it registered in ITS component map) is reused by the next service's document without those registrations — references of the later document dangle", nil)
+			}
+		}
+		r.OKd("R18g", "package "+rel+": package-level variables inventoried", "", map[string]any{"variables": len(vars), "written": nW})
+	}
 	r.Rule("R18f", "the schema key is injective over messages", 1)
 
 	decls := c.oaDecls(pkgOpenAPI)
